@@ -24,13 +24,13 @@ CHECKS = {
             lvl("valid streams with the plaintext known by construction (grammar generator covering 11-15 bit codes, one-symbol codes, empty/stored blocks at all 8 alignments, boundary-crossing runs, len 258, dist 32768, overlaps), plus miniz, zlib and file streams, must decode to the plaintext through every entry point; construct coverage is gated from the reference trace."),
             COMMON_NOTE + "; also built with serde+block-boundary features", "DESIGN.md §3 C03"),
     "C04": ("fault injection (26 targeted RFC violations + mutators + all prefixes) with reference-decoder soundness oracle",
-            lvl("whenever a decode reports Done/Ok/StreamEnd the reference decoder with the same window semantics must accept the same bytes with the same consumed count and output; targeted single-fault streams are placed early and deep (>= 14 trailing bytes, fast loop active); every proper prefix must end in NeedsMoreInput / FailedCannotMakeProgress."),
+            lvl("whenever a decode reports Done/Ok/StreamEnd the reference decoder with the same window semantics must accept the same bytes with the same consumed count and output; targeted single-fault streams are placed early and deep (>= 14 trailing bytes, fast loop active) and run in flat buffers, 32 KiB rings and rings of 256..16384 bytes (distance beyond the ring), as are unmodified valid streams; every proper prefix must end in NeedsMoreInput / FailedCannotMakeProgress."),
             COMMON_NOTE, "DESIGN.md §3 C04"),
     "C05": ("hostile call-history fuzzing with panic capture, geometry model, clone-twin and CPU-time watchdog",
             lvl("hostile histories (independent input slice, flag set, buffer geometry, budget and buffer identity per call) on one decoder object, the streaming wrapper and the vector functions; oracle: no panic, counts in bounds, unusable geometry <=> BadParam without state change (hook fields + never-BadParam'd clone answering identically), Failed sticky, no library call burns > 120 CPU-s."),
             COMMON_NOTE + "; third variant with block-boundary/serde features", "DESIGN.md §3 C05"),
     "C06": ("exact-consumption monitor over trailing-data workloads and all entry points incl. the C API",
-            lvl("valid streams followed by 0..64 unrelated bytes are decoded through core flat/ring, inflate() (loop and first-call Finish), tinfl_decompress and mz_inflate under every 2-chunk split / near-end cuts and output budgets that suspend 0..5 bytes before the end; consumed totals must equal the encoded length and nothing may be consumed afterwards."),
+            lvl("valid streams followed by 0..64 unrelated bytes are decoded (zlib also with the checksum ignored) through core flat/ring, inflate() (loop and first-call Finish), tinfl_decompress and mz_inflate under every 2-chunk split / near-end cuts and output budgets that suspend 0..5 bytes before the end; consumed totals must equal the encoded length and nothing may be consumed afterwards."),
             COMMON_NOTE, "DESIGN.md §3 C06"),
     "C07": ("schedule-equivalence monitor: exhaustive cut points and budgets vs the one-call run",
             lvl("for valid, invalid, mutated and truncated inputs the triple (output, final status, consumed) under EVERY single cut point, 1/2/3-byte feeding, budgets {1..5,257..260} and random schedules must equal the one-call run in the same buffer mode (flat, ring 32K/64K); the hook records the distinct (state, status) suspension pairs exercised."),
@@ -42,10 +42,10 @@ CHECKS = {
             lvl("all 65536 two-byte headers are decoded in flat mode and rings 256..65536; trailer corruptions, stored-payload flips and empty payloads run under 7 chunk/budget schedules (incl. zero-length calls and the trailer arriving alone), with and without the ignore flag, through core, inflate() and the vector function; every zlib output of a level x strategy x window_bits x schedule sweep has its header and trailer checked against the reference Adler-32."),
             COMMON_NOTE, "DESIGN.md §3 C09"),
     "C10": ("token-trace monitor: reference decoder parses every compressor output, mode rules on the trace",
-            "Runtime monitoring (release build): every one of the 880 configurations is visited repeatedly; the reference decoder's token trace of each output is checked for validity (via acceptance by refimpl and zlib) and for the requested mode (level 0 stored only, HuffmanOnly no match, RLE distance 1, Fixed no dynamic block, Filtered no match < 5), and X++X inputs must shrink below 0.75. Held on the executions observed; not a proof.",
+            "Runtime monitoring (release build): every one of the 880 configurations is visited repeatedly; the reference decoder's token trace of each output is checked for validity (via acceptance by refimpl and zlib) and for the requested mode (level 0 stored only, HuffmanOnly no match, RLE distance 1, Fixed no dynamic block, Filtered no match < 5), X++X inputs must shrink below 0.75, and single streams of 1100-8400 flushed blocks must stay valid. Held on the executions observed; not a proof.",
             COMMON_NOTE + "; Fixed/Filtered rules only asserted for window_bits >= 12 where with_params keeps the requested strategy (documented substitution below 12)", "DESIGN.md §3 C10"),
     "C11": ("declared-window monitor: CMF vs reference max distance, exact-size ring decode, zlib windowBits=0",
-            "Runtime monitoring (release build): zlib compressors over window_bits 8..15 x levels x strategies on inputs whose only redundancy lies beyond 2^w, plus mid-stream level changes; CINFO, the reference decoder's maximum distance, a decode in a ring of exactly the declared size and zlib told to trust the header must all agree. Held on the executions observed; not a proof.",
+            "Runtime monitoring (release build): zlib compressors over window_bits 8..15 x levels x strategies on inputs whose only redundancy lies beyond 2^w, plus mid-stream level changes and compressors reused after reset(); CINFO, the reference decoder's maximum distance, a decode in a ring of exactly the declared size and zlib told to trust the header must all agree. Held on the executions observed; not a proof.",
             COMMON_NOTE, "DESIGN.md §3 C11"),
     "C12": ("flush-point monitor: exact precondition evaluation, prefix-only reference decode, suffix decode after full flush, twin compressors",
             lvl("directed flush histories over segmented inputs that repeat pre-flush data; at every flush call the property's precondition is evaluated and, when true, the bytes emitted so far alone must decode to all input so far, Sync/Full must end aligned with 00 00 FF FF, the remainder after a Full flush must decode on its own, and [NoSync, Sync] must be equivalent to [Sync]."),
@@ -54,13 +54,13 @@ CHECKS = {
             lvl("a sequential specification of the inflate() protocol, written from the property statement, is evaluated on every call of all 64^3 (quick) / 64^4 (thorough) action sequences for 12 streams (valid, trailing bytes, truncated, corrupt) plus a legal drain, and on random histories with window-wrapping outputs; what the property leaves open (non-Finish after Finish, empty output slice, what follows a failed Finish) is deliberately not asserted."),
             COMMON_NOTE + "; the specification itself (harness/src/mon/c13.rs)", "DESIGN.md §3 C13"),
     "C14": ("online checker of a sequential protocol specification over exhaustively enumerated call sequences + twin compressor",
-            lvl("a sequential specification of the deflate() protocol is evaluated on every call of all 48^3 action sequences for 6 inputs x 3 configurations (thorough: also all 48^4 sequences for the 4 small inputs) followed by a Finish drain and a reference decode of the delivered bytes; refused empty-output calls are checked for side effects through the hook and through a twin history without them; random histories cover all 880 configurations and outputs smaller than a flush marker."),
+            lvl("a sequential specification of the deflate() protocol is evaluated on every call of all 48^3 action sequences for 6 inputs x 3 configurations (thorough: all 48^4 sequences for the same inputs and configurations, 237 M monitored calls) followed by a Finish drain and a reference decode of the delivered bytes; refused empty-output calls are checked for side effects through the hook and through a twin history without them; random histories cover all 880 configurations and outputs smaller than a flush marker."),
             COMMON_NOTE + "; the specification itself (harness/src/mon/c14.rs)", "DESIGN.md §3 C14"),
     "C15": ("bound monitor with guard-page destinations of exactly the advertised size",
             "Runtime monitoring (release build): mz_compress2 and mz_deflate(MZ_FINISH) write into guard-page buffers of exactly mz_compressBound(n) / mz_deflateBound(n) bytes for n = 0..300 exhaustively, around every block-size threshold up to 4 MiB (16 MiB thorough) and random sizes, over incompressible and adversarial near-incompressible contents, levels -1..10 and all strategies; minimum slack and maximum expansion are reported. Held on the executions observed; not a proof.",
             COMMON_NOTE, "DESIGN.md §3 C15"),
     "C16": ("definitional reference monitor: every split point, scalar and simd builds, running checksums after every call",
-            "Runtime monitoring in three builds (scalar, simd, debug-assertions): the four exported update functions are compared with bytewise/bitwise definitional implementations in one pass and under every split point (<= 2048 bytes) or random multi-way splits with checksum-of-a-prefix start values; the running checksums of compressor, zlib decoder and mz_stream are compared after every call of random schedules. Held on the executions observed; not a proof.",
+            "Runtime monitoring in three builds (scalar, simd, debug-assertions): the four exported update functions are compared with bytewise/bitwise definitional implementations in one pass and under every split point (<= 2048 bytes) or random multi-way splits with checksum-of-a-prefix start values, and Adler-32 at its modular edges (sums ending on 65521+-2); the running checksums of compressor, zlib decoder and mz_stream are compared after every call of random schedules. Held on the executions observed; not a proof.",
             COMMON_NOTE, "DESIGN.md §3 C16"),
     "C17": ("differential + accounting monitor, guard pages, AddressSanitizer, Miri, valgrind memcheck, fork-isolated misuse matrix",
             "Runtime monitoring under several instruments: every exported C function is driven in lock-step with its Rust counterpart (bytes, status, adler) with exact pointer/avail/total accounting, all caller buffers against PROT_NONE guard pages (native, two build profiles) and again under AddressSanitizer; thorough adds Miri and valgrind memcheck runs of a small workload; a 56-row misuse matrix runs each row in a forked child (crash / unwinding panic attributed to the row). Sanitizer silence is not memory safety; held on the executions observed.",
